@@ -5,7 +5,16 @@ import os, sys, json, subprocess, shutil, tempfile
 ROOT = os.path.dirname(os.path.dirname(os.path.abspath(__file__)))
 seeds = sys.argv[1:] or sorted(d for d in os.listdir(os.path.join(ROOT, 'seeded')) if os.path.isdir(os.path.join(ROOT, 'seeded', d)))
 resfile = os.path.join(ROOT, 'seeded', 'RESULTS.json')
-results = json.load(open(resfile)) if os.path.exists(resfile) else {}
+results = {}
+if seeds == ['--aggregate']:
+    for d in sorted(os.listdir(os.path.join(ROOT, 'seeded'))):
+        rp = os.path.join(ROOT, 'seeded', d, 'result.json')
+        if os.path.exists(rp):
+            results[d] = json.load(open(rp))
+    json.dump(results, open(resfile, 'w'), indent=1)
+    for k, v in results.items():
+        print(k, 'CAUGHT' if v['caught'] else 'MISSED', {p: c['rc'] for p, c in v['checks'].items()})
+    sys.exit(0)
 for sid in seeds:
     d = os.path.join(ROOT, 'seeded', sid)
     meta = json.load(open(os.path.join(d, 'meta.json')))
@@ -25,6 +34,7 @@ for sid in seeds:
             out[prop] = dict(rc=r.returncode, lines=[l[:400] for l in lines[:6]])
         caught = any(v['rc'] == 1 and any(l.startswith('VIOLATION') for l in v['lines']) for v in out.values())
         results[sid] = dict(property=meta['property'], caught=caught, checks=out)
+        json.dump(results[sid], open(os.path.join(d, 'result.json'), 'w'), indent=1)
         print(sid, 'CAUGHT' if caught else 'MISSED', {k: v['rc'] for k, v in out.items()}, (out[meta['property']]['lines'] or [''])[0][:230])
     finally:
         shutil.rmtree(tmp, ignore_errors=True)
